@@ -5,6 +5,7 @@ import (
 	"encoding/base64"
 	"errors"
 	"fmt"
+	"os"
 	"sort"
 	"strings"
 
@@ -19,6 +20,7 @@ import (
 	oidcv1 "github.com/istio-ecosystem/authservice/config/gen/go/v1/oidc"
 	"github.com/istio-ecosystem/authservice/internal/k8s"
 	"github.com/istio-ecosystem/authservice/zzverif/ev"
+	"github.com/istio-ecosystem/authservice/zzverif/hidden"
 	"github.com/istio-ecosystem/authservice/zzverif/seqx"
 	"github.com/istio-ecosystem/authservice/zzverif/world"
 )
@@ -250,7 +252,9 @@ func c19Model(run *ev.Run, spec c19Spec) seqx.Model {
 				ks = append(ks, k+"="+v)
 			}
 			sort.Strings(ks)
-			return sb.String() + "|" + strings.Join(ks, ",")
+			// private state of the controller (plain-data fields, by reflection): a state abstraction that ignored
+			// it would merge states with different futures
+			return sb.String() + "|" + strings.Join(ks, ",") + "|ctl:" + hidden.Dump(s.ctl, "log", "config", "restConf", "manager", "k8sClient", "namespace")
 		},
 	}
 }
@@ -310,9 +314,12 @@ func c19Specs(tier string) []c19Spec {
 func c19Run(run *ev.Run) {
 	run.Rule = "BFS over histories of Secret events (create/update with value x|y|empty|no key, mark deleting, delete) on {default/s1, default/s2, default/unrelated, other/s1} and of Reconcile deliveries at any time (which covers duplicated and delayed reconciles), on the real SecretController over controller-runtime's fake client, for configurations mapping 3 filters to {literal, ref s1, ref s2}; after every event each filter's client secret is compared with a reference map (last non-empty value reconciled while not deleting), and after every reconcile a real login through a handler on the same config object shows what reaches the token endpoint; plus the start-up refusal of cross-namespace references; class = (event, object, value)"
 	run.Assumptions = []string{"the controller runs in namespace 'default'", "reconcile deliveries are explicit events; the informer/cache machinery of controller-runtime is not part of the model"}
-	depth := 4
+	depth := 6
 	if run.Tier == "thorough" {
-		depth = 5
+		depth = 7
+	}
+	if d := os.Getenv("VERIF_C19_DEPTH"); d != "" {
+		fmt.Sscanf(d, "%d", &depth)
 	}
 	var total seqx.Stats
 	for _, spec := range c19Specs(run.Tier) {
